@@ -197,12 +197,12 @@ def check_list_mutation(case):
     out = []
     with warnings.catch_warnings():
         warnings.simplefilter("ignore")
-        try:
-            inst = M.build(M.minimal(cls, with_member=M.minimal_scalar(le[1])))
-        except Exception as e:
-            raise H.HarnessError(f"minimal {case['cls']}: {e!r}")
+        desc = M.minimal(cls, with_member=M.minimal_scalar(le[1]))
         for how in ("append", "insert"):
-            x = type(inst).from_etree(inst.to_etree())
+            try:
+                x = M.build(desc)
+            except Exception as e:
+                raise H.HarnessError(f"minimal {case['cls']}: {e!r}")
             getattr(x, how)(*((case["member"],) if how == "append" else (0, case["member"])))
             try:
                 et = x.to_etree()
